@@ -3,6 +3,7 @@
 import json, sys
 pid, wt = sys.argv[1], sys.argv[2]
 n = sys.argv[3] if len(sys.argv) > 3 else "2"
+extra = sys.argv[4] if len(sys.argv) > 4 else ""
 props = {json.loads(l)["id"]: json.loads(l) for l in open("/verif/properties.jsonl")}
 p = props[pid]
 text = f"""# Task: seed a defect into rosu-pp that breaks one semantic property
@@ -38,6 +39,7 @@ case ...) such that, for each change taken alone:
    ordinary use (calculate on a normal map with default settings) exposes at once.
 
 Prefer changes in different files / mechanisms from each other.
+{extra}
 
 ## Deliverables (all under `{wt}/_seed/`)
 
